@@ -48,6 +48,7 @@ WORKLOADS = {
     "bulk": ("w_bulk.cpp", ()),
     "find_if": ("w_bulk.cpp", ()),
     "stream": ("w_stream.cpp", ()),
+    "streamlib": ("w_streamlib.cpp", ()),
     "any_object": ("w_erase.cpp", ()),
     "any_unique": ("w_erase.cpp", ()),
     "traits": ("w_traits.cpp", ()),
@@ -343,6 +344,8 @@ PROPS = {
         batches=[
             B("w_stream.cpp", "stream", quick=14, thorough=240, oracles=["c13.", "c01.", "c02."] + RT_ALL),
             B("w_stream.cpp", "stream", cfg="S17r", quick=6, thorough=90, oracles=["c13.", "c01.", "c02."] + RT_ALL),
+            B("w_streamlib.cpp", "streamlib", quick=6, thorough=90, oracles=["c13.", "c01.", "c02.", "c07.early", "c11.via"] + RT_ALL),
+            B("w_streamlib.cpp", "streamlib", cfg="S17r", quick=3, thorough=45, oracles=["c13.", "c01.", "c02.", "c07.early", "c11.via"] + RT_ALL),
         ],
         level_text=("Seeded runs of reduce_stream over twelve adaptor pipelines (plain source, transform, filter, take_until, stop_immediately, "
                     "type_erase, filter(transform), on_stream, transform(filter), stop_immediately(transform), take_until(filter), "
@@ -353,11 +356,18 @@ PROPS = {
                     "a prefix of (and without stop/trigger exactly) the sequence the adaptor's definition prescribes, in order; the result is the "
                     "fold over precisely those elements, an error only if the source failed, never done; per underlying stream whose next() was "
                     "started: cleanup() exactly once, after the outstanding next() completed and before the consumer's result; next() operations "
-                    "never overlap; child op states are never destroyed while running; shadow memory and leak checks."),
-        level_note=("Trusted: usim stubs, harness gates. Not driven: range_stream/single/never_stream sources (the scripted source subsumes their "
-                    "shapes), for_each (a reduce_stream wrapper), delay, via_stream/typed_via_stream (finally() cannot adapt the value-less cleanup "
-                    "sender of the harness source), next/cleanup_adapt_stream, the manual consumer calling cleanup() without next()."),
-        real=["reduce_stream", "transform_stream, filter_stream, adapt_stream/next_adapt_stream", "take_until", "stop_immediately", "type_erased_stream (+any_scheduler)", "on_stream"],
+                    "never overlap; child op states are never destroyed while running; shadow memory and leak checks. "
+                    "w_streamlib drives the library's own sources and the remaining adaptors: fifteen pipelines over range_stream, single, "
+                    "never_stream - transform, filter, take_until(never_stream | range, trigger gate), delay, via_stream, typed_via_stream, "
+                    "on_stream, next_adapt_stream, cleanup_adapt_stream, stop_immediately, type_erase, stop_immediately(delay) - consumed by "
+                    "reduce_stream or for_each with stop before start / racing / from inside element k: delivered elements are an in-order prefix "
+                    "of the prescribed sequence (all of it unless a stop or the trigger cut it), the fold equals the fold over them, done only after "
+                    "a stop request, delay() never delivers element i before i+1 delays elapsed on the simulated clock, via/typed_via/on_stream "
+                    "deliver on the scheduler's thread."),
+        level_note=("Trusted: usim stubs, harness gates. Not driven: a manual consumer calling cleanup() without next() (outside the statement: it "
+                    "speaks of streams whose next() was started); cleanup-count oracles need the scripted sources, so they are not evaluated for the "
+                    "library sources."),
+        real=["reduce_stream, for_each", "transform_stream, filter_stream, adapt_stream/next_adapt_stream/cleanup_adapt_stream", "take_until", "stop_immediately", "type_erased_stream (+any_scheduler)", "on_stream, via_stream, typed_via_stream, delay", "range_stream, single, never_stream"],
         stub=["scripted source streams and gates (kit/gate.hpp)", "pthread layer, heap (usim)"],
     ),
     "C18": dict(
